@@ -215,13 +215,11 @@ example : (Spec.authName id 1 [65, 66]).length < 65536 := by decide
 
 /-! ### CHALLENGE: parse ∘ build = id -/
 
-/-- **Parsing a well-formed CHALLENGE returns precisely what it carries.**  For every flag word, server
-    challenge, reserved field, target name, target info (any bytes below 64 KiB each), version, and
-    arbitrary filler bytes before / between / after the two payload fields: `ParseChallengeMessage` of
-    the MS-NLMP 2.2.1.2 encoding gives back exactly that content (the Version only under
-    NTLMSSP_NEGOTIATE_VERSION — otherwise it is all-zero on both sides). -/
-theorem parse_build_challenge (c : Challenge) (g0 g1 g2 : Bytes) (h : Spec.WellFormed c g0 g1) :
-    parseChallenge (Spec.buildChallenge c g0 g1 g2) = .ok c := by
+/-- **The two `MaxLen` fields are ignored on receipt** (MS-NLMP 2.2.1.2: "MUST be ignored on receipt"): whatever a
+    sender puts into `TargetNameMaxLen` and `TargetInfoMaxLen`, the CHALLENGE parses to the content it carries. -/
+theorem parse_build_challenge_any_maxlen (c : Challenge) (g0 g1 g2 : Bytes) (tnMax tiMax : Nat)
+    (h : Spec.WellFormed c g0 g1) :
+    parseChallenge (Spec.buildChallengeMax c g0 g1 g2 tnMax tiMax) = .ok c := by
   obtain ⟨flags, sc, rs, tn, ti, ver⟩ := c
   obtain ⟨hsc, hrs, hver, htn, hti, hoff, hv0⟩ := h
   simp only at hsc hrs hver htn hti hoff hv0
@@ -229,10 +227,10 @@ theorem parse_build_challenge (c : Challenge) (g0 g1 g2 : Bytes) (h : Spec.WellF
   obtain ⟨r0,r1,r2,r3,r4,r5,r6,r7, rfl⟩ := len8 rs hrs
   obtain ⟨v0,v1,v2,v3,v4,v5,v6,v7, rfl⟩ := len8 ver hver
   generalize hH : chalHeader flags [s0,s1,s2,s3,s4,s5,s6,s7] [r0,r1,r2,r3,r4,r5,r6,r7] [v0,v1,v2,v3,v4,v5,v6,v7]
-    tn.length (56 + g0.length) ti.length (56 + g0.length + tn.length + g1.length) = H
-  have hd : Spec.buildChallenge ⟨flags, [s0,s1,s2,s3,s4,s5,s6,s7], [r0,r1,r2,r3,r4,r5,r6,r7], tn, ti, [v0,v1,v2,v3,v4,v5,v6,v7]⟩ g0 g1 g2
+    tn.length (56 + g0.length) ti.length (56 + g0.length + tn.length + g1.length) tnMax tiMax = H
+  have hd : Spec.buildChallengeMax ⟨flags, [s0,s1,s2,s3,s4,s5,s6,s7], [r0,r1,r2,r3,r4,r5,r6,r7], tn, ti, [v0,v1,v2,v3,v4,v5,v6,v7]⟩ g0 g1 g2 tnMax tiMax
       = H ++ (g0 ++ (tn ++ (g1 ++ (ti ++ g2)))) := by
-    rw [← hH]; simp [Spec.buildChallenge, chalHeader]
+    rw [← hH]; simp [Spec.buildChallengeMax, chalHeader]
   rw [hd]
   have hHl : H.length = 56 := by rw [← hH]; rfl
   generalize hd' : H ++ (g0 ++ (tn ++ (g1 ++ (ti ++ g2)))) = d
@@ -279,6 +277,15 @@ theorem parse_build_challenge (c : Challenge) (g0 g1 g2 : Bytes) (h : Spec.WellF
   by_cases hv : flags &&& F_VERSION = 0
   · rw [if_neg (by intro h; exact h.1 hv)]; exact (hv0 hv).symm
   · rw [if_pos ⟨hv, by omega⟩]
+
+/-- **Parsing a well-formed CHALLENGE returns precisely what it carries.**  For every flag word, server
+    challenge, reserved field, target name, target info (any bytes below 64 KiB each), version, and
+    arbitrary filler bytes before / between / after the two payload fields: `ParseChallengeMessage` of
+    the MS-NLMP 2.2.1.2 encoding gives back exactly that content (the Version only under
+    NTLMSSP_NEGOTIATE_VERSION — otherwise it is all-zero on both sides). -/
+theorem parse_build_challenge (c : Challenge) (g0 g1 g2 : Bytes) (h : Spec.WellFormed c g0 g1) :
+    parseChallenge (Spec.buildChallenge c g0 g1 g2) = .ok c :=
+  parse_build_challenge_any_maxlen c g0 g1 g2 _ _ h
 
 example : Spec.WellFormed ⟨0x02000001, [1,2,3,4,5,6,7,8], zeros 8, [65, 0], [2, 0, 2, 0, 65, 0, 0, 0, 0, 0],
     [10, 0, 1, 2, 0, 0, 0, 15]⟩ [9] [] := by
